@@ -71,6 +71,20 @@ def run(ctx):
                 if s == 3:
                     coll = [c[:3] for c in coll[:40]]
                 lines.append(sline(a * 16 + s * 2 + lcp, mem, coll))
+    # memory-limit sweep: the radix sorters fall back to another sorter as soon as the limit does not cover one more radix level; which level that is
+    # (and whether the current bucket lives in the caller's array or in the shadow array at that moment) depends on limit, n and the string representation.
+    # Collections with deep shared prefixes and buckets >= 32 strings at every depth, limits from 1 KB to 30 KB (thorough: 60 KB, finer).
+    nsweep = 0
+    for ci in range(3 if quick else 16):
+        n = (300, 120, 500)[ci % 3]
+        if ci % 2 == 0:
+            coll = [[rng.choice((97, 98)) for _ in range(10)] + [rng.randint(1, 255) for _ in range(rng.randint(0, 2))] for _ in range(n)]
+        else:
+            coll = [[119, 119, 119, 46] + [rng.choice((97, 98, 99)) for _ in range(rng.randint(0, 5))] for _ in range(n)]
+        for (a_, s_) in ((0, 0), (0, 1), (4, 0), (5, 0), (5, 1), (6, 0), (7, 0), (3, 0), (4, 2)):
+            for mem in (range(1000, 30001, 1000) if quick else range(1000, 60001, 250)):
+                lines.append(sline(a_ * 16 + s_ * 2 + (nsweep % 2), mem, coll))
+                nsweep += 1
     big = []
     for n in ((65536, 70000) if quick else (65535, 65536, 65537, 70000)):
         for rep in range(1 if quick else 3):
@@ -80,6 +94,7 @@ def run(ctx):
     for ln in lines + big:
         ctx.count_case(ln, nontrivial=int(ln.split()[2]) >= 2)
     ctx.cov["large_cases"] = len(big)
+    ctx.cov["memory_sweep_cases"] = nsweep
     scr = ctx.path("ss_scripts.txt")
     open(scr, "w").write("\n".join(lines + big) + "\n")
     src = os.path.join(HARNESS, "drv_strsort.cpp")
